@@ -127,8 +127,10 @@ Section InRingCovariance.
   Qed.
   Lemma on_path_cov : forall p r, on_path (T p) (map T r) = on_path p r.
   Proof.
-    intros p r. unfold on_path. induction r as [|a r IH]; [reflexivity|].
-    destruct r as [|b r]; [reflexivity|].
+    intros p r. destruct r as [|a [|b r]]; [reflexivity | cbn [map on_path]; apply Hinj |].
+    unfold on_path. cbn [map]. change (T a :: T b :: map T r) with (map T (a :: b :: r)).
+    generalize (a :: b :: r). intros l. induction l as [|x l IH]; [reflexivity|].
+    destruct l as [|y l]; [reflexivity|].
     cbn [map segs existsb fst snd] in *. rewrite Hon, IH. reflexivity.
   Qed.
   Lemma in_ring_cov : forall p r, in_ring (T p) (map T r) = in_ring p r.
@@ -239,15 +241,21 @@ Proof. intros [x y] r. unfold in_ring_h, hp. cbn [fst snd]. rewrite map_scale_1.
 (* ---- a vertex of a sequence with at least one segment lies on it ---- *)
 Lemma segs_cons2 : forall a b (r : seq), segs (a :: b :: r) = (a, b) :: segs (b :: r).
 Proof. reflexivity. Qed.
-Lemma on_path_vertex : forall p r, In p r -> (2 <= length r)%nat -> on_path p r = true.
+Lemma on_segs_vertex : forall p r, In p r -> (2 <= length r)%nat -> existsb (fun s => on_seg p (fst s) (snd s)) (segs r) = true.
 Proof.
-  intros p r. unfold on_path. induction r as [|a r IH]; [intros []|].
+  intros p r. induction r as [|a r IH]; [intros []|].
   destruct r as [|b r]; [cbn; lia|].
   intros Hin _. rewrite segs_cons2. cbn [existsb fst snd].
   destruct Hin as [<- | Hin]; [rewrite on_seg_endpoint_l; reflexivity|].
   destruct r as [|c r].
   - destruct Hin as [<- | []]. rewrite on_seg_endpoint_r. reflexivity.
   - rewrite IH; [apply orb_true_r | exact Hin | cbn [length]; lia].
+Qed.
+Lemma on_path_vertex : forall p r, In p r -> on_path p r = true.
+Proof.
+  intros p r Hin. destruct r as [|a [|b r]]; [destruct Hin | |].
+  - destruct Hin as [<- | []]. cbn [on_path]. apply pt_eqb_refl.
+  - unfold on_path. apply on_segs_vertex; [exact Hin | cbn [length]; lia].
 Qed.
 Lemma in_ring_on_path : forall p r, on_path p r = true -> in_ring p r = Boundary.
 Proof. intros p r H. unfold in_ring. rewrite H. reflexivity. Qed.
